@@ -61,10 +61,17 @@ ASSUMPTIONS = [
     "hash consistency of equal systems is measured and reported in outcomes but is not part of this property",
 ]
 BOUNDS = {
-    "quick": "G: n<=3 all edge subsets (n=3: 512 graphs) x placement menu x scheme sym, reduced menus for schemes "
-             "pk/mm/shared, self flows for n<=2; S: 5 base systems, depth 2 (names A..D)",
-    "thorough": "G: n<=3 full menus all schemes, self flows n<=3, n=4 all 65536 edge subsets x {no dose, dose on "
-                "each} scheme sym (light oracle) ; S: 7 base systems, depth 3; F: chain/star/cycle/complete n=5,6",
+    "quick": "G: n=3: all 512 edge subsets x {no dose, dose on one} x {no input, input on one} scheme sym (light), "
+             "x (dose on C, input on A) full oracle, x no dose with to_compartmental_system for schemes sym/pk/shared; "
+             "n=2: all 16 edge subsets x full placement menu (16) schemes sym/mm, x 9 placements schemes pk/shared, "
+             "full oracle; n=1 full; graphs with self flows n<=2 (full oracle); "
+             "S: base systems 0,1,3,4 depth 2 and the empty builder depth 4, names A..D, light + serialisation oracle",
+    "thorough": "G: n=4: all 65536 edge subsets x {no dose, dose on B + input on C} scheme sym (light); n=3: all 512 "
+                "edge subsets x full placement menu (41) serialisation oracle, x 16 placements full oracle (sym), x "
+                "{no dose, dose on one} full oracle for schemes pk/mmout/mm/shared; self flows n<=3; n<=2 all schemes "
+                "full menu full oracle; S: base systems 0,1,2,3,4,6 depth 3 and the empty builder depth 5; "
+                "F: chain/reverse chain/star/cycle/complete on 5 and 6 compartments x schemes sym/pk/mmout x "
+                "{no dose, dose on one} x {no input, input on one}, full oracle",
 }
 PREIMPORT = ("pharmpy.model", "pharmpy.basic")
 
@@ -892,7 +899,7 @@ def shards(tier):
                     out.append(("F", fam, n, scheme))
     # heavy first: big families, then sequences, then graph shards
     order = {"F": 0, "S": 1, "G": 2}
-    out.sort(key=lambda s: (order[s[0]], -s[2] if s[0] == "F" else 0))
+    out.sort(key=lambda s: (order[s[0]], -len(family_edges(s[1], R.POOL[:s[2]])) if s[0] == "F" else 0))
     return out
 
 
